@@ -156,3 +156,57 @@ Example c08_example :
   /\ snd (frame_received SCHEMAS 8 cs 0x58 st [9; 0x80; 1; 0; 0; 8; 2; 0x10; 0x70])
      = [OCallback 0 [XP (VI 8); XP (VI 2); XP (VI 0x7010)]].
 Proof. vm_compute. repeat split. Qed.
+
+(* ---- the tie to the source text ----------------------------------------------------------------------
+   gen/GenProtoFn.v is emitted on every run from the Python AST of EZSP.frame_received (bellows/ezsp/__init__.py) and
+   ProtocolHandler.__call__ with the COMMANDS_BY_ID comprehension of __init__ (bellows/ezsp/protocol.py); the header
+   readers come from gen/GenEzspFn.v (source of EZSPv4 / v5 / v8._ezsp_frame_rx), chosen by header kind ([py_header_rx]).
+   Vocabulary (proofs/ProtoSrc_proofs.v):
+     aw_abs aw           the model's view of the source's _awaiting dict: (cmd_id, rx_schema, future) |-> (cmd_id, future);
+                         a future is named by the id of the call awaiting it
+     fut_done st f       future f is done: its call has ended, or a reply is already recorded for it
+     run_effs cs st effs the effects applied to the model: set_result / set_exception on a pending future is [deliver]
+                         to its call, _handle_callback(name, values) is an OCallback with the frame id of that name
+     ids_known cs aw     every pending entry carries the frame id of a command of the table (command() takes it from
+                         COMMANDS[name]: c06_source_command; kept by the receive path: third conjunct)
+   For every byte string the emitted receive path never lets an exception out, leaves exactly the pending table of the
+   model's [frame_received] (the [recv] of every theorem above) and its effects are exactly the model's state change and
+   outputs.  The hypotheses on the table hold for every generated version (c08_source_tables); [waiting_has_no_reply] is
+   the invariant of reachable states (c08_waiting_inv_reachable). *)
+Require Import BV.gen.GenProtoFn BV.proofs.EzspCodec_proofs BV.proofs.ProtoSrc_proofs.
+
+Theorem c08_source_receive : forall schemas kind cs ic st aw data,
+  NoDup (map c_id cs) -> NoDup (map c_name cs) -> find_by_name "invalidCommand"%string cs = Some ic ->
+  waiting_has_no_reply st -> aw_abs aw = p_awaiting st -> ids_known cs aw ->
+  let '(aw', effs, r) := py_EZSP_frame_received schemas (py_header_rx kind) cs (fut_done st) true aw data in
+  r = PyNone
+  /\ frame_received schemas kind cs (c_id ic) st data = run_effs cs (with_awaiting st (aw_abs aw')) effs
+  /\ ids_known cs aw'.
+Proof. exact src_receive. Qed.
+
+Theorem c08_source_tables : forall v, version_ok v ->
+  NoDup (map c_id (commands_of v)) /\ NoDup (map c_name (commands_of v)) /\
+  exists ic, find_by_name "invalidCommand"%string (commands_of v) = Some ic /\ invalid_fid_of v = c_id ic.
+Proof. exact src_tables. Qed.
+
+(* before a protocol handler is configured every frame is dropped *)
+Theorem c08_source_unconfigured : forall schemas frx cs done aw data,
+  py_EZSP_frame_received schemas frx cs done false aw data = (aw, [], PyNone).
+Proof. exact src_receive_unconfigured. Qed.
+
+(* non-vacuity: the frames of c08_example through the emitted receive path, version command pending under number 0 *)
+Example c08_source_example :
+  let cs := commands_of 8 in
+  let aw : ph_awaiting := [(0, (0, 0%nat, 1))] in
+  let recv := py_EZSP_frame_received SCHEMAS (py_header_rx 8) cs (fun _ => false) true aw in
+  recv [0; 0x80; 1; 0; 0; 8] = (aw, [], PyNone)                                       (* truncated reply: contained *)
+  /\ recv [0; 0x80; 1; 0xEE; 0xEE] = (aw, [], PyNone)                                 (* unknown frame id *)
+  /\ recv [9; 0x80; 1; 0; 0; 8; 2; 0x10; 0x70]
+     = (aw, [PCallback "version" [XP (VI 8); XP (VI 2); XP (VI 0x7010)]], PyNone)      (* foreign sequence number *)
+  /\ recv [0; 0x80; 1; 0; 0; 8; 2; 0x10; 0x70]
+     = ([], [PSetResult 1 [XP (VI 8); XP (VI 2); XP (VI 0x7010)]], PyNone)            (* the reply *)
+  /\ recv [0; 0x80; 1; 0x58; 0; 0x36]
+     = ([], [PSetException 1 XInvalidCommand], PyNone)                                 (* invalidCommand *)
+  /\ recv [0; 0x80; 1; 0x05; 0; 0]
+     = ([], [], PyNone).                         (* another command's response under that number: entry dropped *)
+Proof. vm_compute. repeat split. Qed.
